@@ -317,6 +317,23 @@ def symmetry_axis_forms(ck, tier):
                         except Exception as e:
                             res.append("raise")
                     outs.append(res)
+                # … and whatever the symmetrisation method: 'fourier' works on the whole image, but a mask the request rules out is ruled out
+                for call, a in zip(("get_image_quadrants", "Transform"), outs[0]):
+                    ck.count(("S.sym-forms-fourier", name, call, uq), suite="S.property")
+                    try:
+                        with warnings.catch_warnings(), contextlib.redirect_stdout(io.StringIO()):
+                            warnings.simplefilter("ignore")
+                            if call == "get_image_quadrants":
+                                symmetry.get_image_quadrants(im, symmetry_axis=spellings[0], use_quadrants=uq, symmetrize_method="fourier")
+                            else:
+                                abel.Transform(im, method="hansenlaw", symmetry_axis=spellings[0], use_quadrants=uq, symmetrize_method="fourier")
+                        fr = "returned"
+                    except Exception:
+                        fr = "raise"
+                    if (fr == "raise") != isinstance(a, str):
+                        ck.violation(dict(site=call, clause="fourier-mask-refusal"), dict(shape=list(shape), symmetry_axis=repr(spellings[0]), use_quadrants=list(uq)),
+                                     f"{call}(symmetry_axis={spellings[0]!r}, use_quadrants={uq}, symmetrize_method='fourier') {'raised' if fr == 'raise' else 'returned a result'} "
+                                     f"although the same request with 'average' {'raised' if isinstance(a, str) else 'returned a result'}")
                 for sa, res in zip(spellings[1:], outs[1:]):
                     for call, a, b in zip(("get_image_quadrants", "Transform"), outs[0], res):
                         same = (isinstance(a, str) and isinstance(b, str)) or \
